@@ -312,12 +312,16 @@ def run_c06(chk):
 
 def run_cli(binary, args, stdin_text, cwd):
     env = dict(core.ENV, HOME=cwd, NO_COLOR="1", CLICOLOR="0", TERM="dumb")
-    try:
-        p = subprocess.run([binary] + args, input=stdin_text.encode("utf-8"), cwd=cwd, env=env, stdout=subprocess.PIPE,
-                           stderr=subprocess.PIPE, timeout=20)
-        return p.returncode, p.stdout.decode("utf-8", "replace"), p.stderr.decode("utf-8", "replace")
-    except subprocess.TimeoutExpired:
-        return "timeout", "", ""
+    # the programs compared here end within the in-process turn budget; the limit only guards against a hung binary
+    # (one retry: the machine may be saturated by other checks running in parallel)
+    for attempt in (0, 1):
+        try:
+            p = subprocess.run([binary] + args, input=stdin_text.encode("utf-8"), cwd=cwd, env=env, stdout=subprocess.PIPE,
+                               stderr=subprocess.PIPE, timeout=60 if attempt == 0 else 180)
+            return p.returncode, p.stdout.decode("utf-8", "replace"), p.stderr.decode("utf-8", "replace")
+        except subprocess.TimeoutExpired:
+            continue
+    return "timeout", "", ""
 
 
 ANSI = re.compile(r"\x1b\[[0-9;]*m")
